@@ -149,7 +149,8 @@ def run(tier="quick", seed=0, pid="C12"):
                     continue
                 reference[req] = ref
             evaluations += 1
-            distinct.add((name, req, len(history)))
+            if len(history) >= 2:
+                distinct.add((name, req))
             if got != reference[req] and name not in reported:
                 reported.add(name)
                 what = "raises" if got and got[0] == "raises" else f"{len(got)} trees"
@@ -166,7 +167,7 @@ def run(tier="quick", seed=0, pid="C12"):
         "rule": (f"every spec of the family + 3 (ambiguous with >32 parses, bytes regex in text, several start symbols): one random sequence of {seq_len} "
                  "requests (forest / first / abandoned forest / parse_multiple / fuzz; COMPLETE and INCOMPLETE; str and bytes renderings; other start "
                  "symbols; 40 % of the handed-out trees damaged) on one shared grammar object, each result compared with the result of the same request "
-                 "on a new object; distinct = distinct (spec, request, position in the history); non-trivial = position >= 1"),
+                 "on a new object; distinct = distinct (spec, request); non-trivial = issued after at least one earlier request on the same object"),
         "bound": f"{seq_len} requests per spec, words up to 7 units", "samples": samples, "violations": violations,
         "requests_over_budget_not_judged": timeouts, "wall_s": round(time.time() - t0, 1),
     }
